@@ -130,7 +130,8 @@ func implPre(f *Frame, st *State, ct *Contract) {
 	}
 	view := f.implView(ct)
 	c.Assume(TTrue, view.wf(c, st), "register store is well-formed (files allocated with their fixed sizes)")
-	for g, fn := range view.scal {
+	for _, g := range sortedKeys(view.scal) {
+		fn := view.scal[g]
 		if g == "G_pc" && view.name == "timing" {
 			continue
 		}
